@@ -444,7 +444,7 @@ def obligations(tier):
                           code=['propka/conformation_container.py:ConformationContainer.__init__', 'propka/molecular_container.py:MolecularContainer.__init__', 'propka/group.py:PROTONATOR',
                                 'propka/coupled_groups.py:NCCG', 'propka/atom.py:Atom (class defaults)', 'propka/run.py:single'],
                           bounds='4 subject runs x histories of 1-2 earlier runs out of 9, each world in a newly started interpreter; the reference is the subject alone in a pristine interpreter',
-                          claim_doc='the subject run after the history gives the values and text of the subject run alone', max_paths=100000, shards=16, wall_s=170))
+                          claim_doc='the subject run after the history gives the values and text of the subject run alone', max_paths=100000, split_input=('history_0', 9), wall_s=170))
     obs.append(Obligation('O4-singleton-purity[NCCG]', o_nccg_purity,
                           code=['propka/coupled_groups.py:NCCG', 'propka/coupled_groups.py:NonCovalentlyCoupledGroups.is_coupled_protonation_state_probability'],
                           bounds='an earlier probe on a concrete structure with symbolic energies, then the probe under test (2 groups + bystander, all values and energies symbolic); pH variable or 7',
